@@ -58,7 +58,9 @@ func justifyFlow(s *sim.Sim, st *sim.Step, U string) string {
 		}
 	case "totp_validate", "sms_validate":
 		kind := strings.SplitN(a.Kind, "_", 2)[0]
-		if p := bs.Pending[kind]; p != nil && p.PID == U && p.Justified && rec.SessIn[kind+"_pending"] == U {
+		// the second-factor step of a login U's credential started in this session — and it has to be
+		// U's second factor that the request proves ("another user's secrets" leave the identity alone)
+		if p := bs.Pending[kind]; p != nil && p.PID == U && p.Justified && rec.SessIn[kind+"_pending"] == U && secondFactorProven(s, st, U, a.Kind) != "" {
 			return "2fa-step"
 		}
 	}
